@@ -59,6 +59,8 @@ pub struct Report {
     pub violations: Vec<(String, String, Value)>, // (class, msg, replay json)
     pub known_hits: Vec<(String, String)>,
     pub machinery: Vec<String>,
+    /// machinery errors that make the oracle itself untrustworthy (reference model disagrees with CPython): no verdict at all
+    pub machinery_fatal: Vec<String>,
     pub states: u64,
     pub transitions: u64,
     pub validated: u64,
@@ -79,6 +81,7 @@ impl Report {
             violations: vec![],
             known_hits: vec![],
             machinery: vec![],
+            machinery_fatal: vec![],
             states: 0,
             transitions: 0,
             validated: 0,
@@ -155,7 +158,9 @@ impl Report {
             println!("KNOWN-FINDING: property={} {} — {}", self.prop, class, msg);
         }
         let mut replay_paths = vec![];
-        if self.machinery.is_empty() {
+        // a violation found by one sub-check stays a violation when another sub-check could not run (coverage problem);
+        // only an untrustworthy oracle (fatal machinery error) suppresses verdicts
+        if self.machinery_fatal.is_empty() {
             let _ = std::fs::create_dir_all(format!("{dir}/replays"));
             for (i, (class, msg, replay)) in self.violations.iter().enumerate() {
                 let path = format!("{dir}/replays/{}-{}-{}.json", self.prop, self.tier, i);
@@ -183,11 +188,11 @@ impl Report {
             json!(if self.validated > 0 || self.model_bound { "distinct generator outputs replayed through CPython pickletools.genops/dis and compared with the reference lexer/machine verdicts" } else { "no separate model: every transition counted is an execution of the real implementation" }),
         );
         self.coverage.insert("samples".into(), json!(self.samples));
-        self.coverage.insert("exhaustive".into(), json!(exhaustive && self.machinery.is_empty()));
+        self.coverage.insert("exhaustive".into(), json!(exhaustive && self.machinery.is_empty() && self.machinery_fatal.is_empty()));
         self.coverage.insert("rule".into(), json!(rule));
         self.coverage.insert("known_findings_hit".into(), json!(self.known_hits.iter().map(|x| x.0.clone()).collect::<Vec<_>>()));
-        if !self.machinery.is_empty() {
-            self.coverage.insert("machinery_errors".into(), json!(self.machinery.iter().take(20).collect::<Vec<_>>()));
+        if !self.machinery.is_empty() || !self.machinery_fatal.is_empty() {
+            self.coverage.insert("machinery_errors".into(), json!(self.machinery_fatal.iter().chain(self.machinery.iter()).take(20).collect::<Vec<_>>()));
         }
         let ev = json!({
             "property_id": self.prop,
@@ -212,16 +217,21 @@ impl Report {
             self.known_hits.len(),
             wall
         );
-        if !self.machinery.is_empty() {
-            for m in self.machinery.iter().take(10) {
-                println!("MACHINERY-ERROR {m}");
-            }
+        for m in self.machinery_fatal.iter().take(10) {
+            println!("MACHINERY-ERROR {m}");
+        }
+        for m in self.machinery.iter().take(10) {
+            println!("MACHINERY-ERROR {m}");
+        }
+        if !self.machinery_fatal.is_empty() {
             return 2;
         }
-        if self.violations.is_empty() {
-            0
-        } else {
-            1
+        if !self.violations.is_empty() {
+            return 1;
         }
+        if !self.machinery.is_empty() {
+            return 2;
+        }
+        0
     }
 }
